@@ -43,6 +43,7 @@ const (
 	ovCmp           // the truth value of `x tok lit` for an operand payload x (cmp)
 	ovNil           // the nil literal
 	ovNonNil        // a pointer / interface value known not to be nil
+	ovRecord        // a struct value written as a literal: the fields whose values are known (rec)
 )
 
 // opsTable: a table written as data (map[K]V{...}, []T{...}) whose keys /
@@ -75,6 +76,10 @@ type opsVal struct {
 	fn     *ast.FuncLit
 	tbl    *opsTable
 	cmp    *opsCmp
+	rec    map[string]opsVal       // ovRecord: known fields
+	recT   *types.Struct           // ovRecord: the struct type
+	fenv   map[types.Object]opsVal // ovFunc: the bindings at the function literal (its free variables)
+	finfo  *types.Info             // ovFunc: type information of the file the literal stands in
 }
 
 func (v opsVal) String() string {
@@ -124,6 +129,17 @@ func (v opsVal) String() string {
 		return "nil"
 	case ovNonNil:
 		return "non-nil"
+	case ovRecord:
+		var ks []string
+		for k := range v.rec {
+			ks = append(ks, k)
+		}
+		sort.Strings(ks)
+		var b []string
+		for _, k := range ks {
+			b = append(b, k+":"+v.rec[k].String())
+		}
+		return "{" + strings.Join(b, " ") + "}"
 	}
 	return "?"
 }
@@ -300,6 +316,9 @@ type opsEng struct {
 	inlines   int
 	pkgVars   map[*types.Var]*opsPkgVar
 	nonNil    map[*types.Func]int
+	// table loops unrolled before walking (rules_ops_rewrite.go)
+	unrolled   map[*ast.BlockStmt]*ast.BlockStmt
+	unrollBind map[ast.Stmt]*opsUnrollBind
 }
 
 type opsPkgVar struct {
@@ -313,7 +332,7 @@ type opsPkgVar struct {
 
 func newOpsEng(c *Ctx) *opsEng {
 	g := &opsEng{c: c, infoOf: map[*token.File]*types.Info{}, decls: map[*types.Func]*ast.FuncDecl{},
-		enumMemo: map[*types.TypeName]bool{}, divMemo: map[*types.Func]bool{}, constEnum: map[*types.Const]*types.TypeName{}, kindMemo: map[*types.TypeName]*types.Const{}, consMemo: map[*types.Func]*types.Const{}, ordMemo: map[*types.TypeName]opsFieldOrder{}}
+		unrolled: map[*ast.BlockStmt]*ast.BlockStmt{}, unrollBind: map[ast.Stmt]*opsUnrollBind{}, enumMemo: map[*types.TypeName]bool{}, divMemo: map[*types.Func]bool{}, constEnum: map[*types.Const]*types.TypeName{}, kindMemo: map[*types.TypeName]*types.Const{}, consMemo: map[*types.Func]*types.Const{}, ordMemo: map[*types.TypeName]opsFieldOrder{}}
 	for _, p := range c.All {
 		for _, f := range p.Syntax {
 			g.infoOf[c.Fset.File(f.Pos())] = p.TypesInfo
@@ -597,6 +616,19 @@ func (ev *opsEv) eval(st *opsSt, e ast.Expr) (out opsVal) {
 		base := ev.eval(st, x.X)
 		ft := sel.Obj().Type()
 		switch base.k {
+		case ovRecord:
+			if fv, ok := base.rec[x.Sel.Name]; ok {
+				return fv
+			}
+			// a field the literal does not set (or sets to something unknown)
+			if base.recT != nil {
+				for i := 0; i < base.recT.NumFields(); i++ {
+					if base.recT.Field(i).Name() == x.Sel.Name && base.rec[x.Sel.Name+"\x00set"].k == ovUnknown {
+						return ev.zeroOf(ft)
+					}
+				}
+			}
+			return opsVal{}
 		case ovNode:
 			if tn := opsTypeName(ft); tn != nil {
 				if k := ev.cfg.nodeDims[tn]; k != nil {
@@ -731,7 +763,7 @@ func (ev *opsEv) eval(st *opsSt, e ast.Expr) (out opsVal) {
 		nev := len(st.ev)
 		defer func() {
 			// a literal of map / slice / array type whose parts have no effects is a table
-			if lt == nil || res.k != ovUnknown || len(st.ev) != nev {
+			if lt == nil || res.k != ovUnknown || opsEffects(st.ev, nev) != 0 {
 				return
 			}
 			switch lt.Underlying().(type) {
@@ -739,9 +771,42 @@ func (ev *opsEv) eval(st *opsSt, e ast.Expr) (out opsVal) {
 				out = ev.cfg.g.tableOf(info, x)
 			}
 		}()
+		var rec map[string]opsVal
+		if lst != nil && res.k == ovUnknown {
+			rec = map[string]opsVal{}
+			defer func() {
+				// a plain struct literal: a record of its fields. A field that is set to a value that is not
+				// known is remembered as set (so that it does not read as the zero value)
+				if out.k == ovUnknown && opsEffects(st.ev, nev) == 0 {
+					known := false
+					for k, fv := range rec {
+						if !strings.HasSuffix(k, "\x00set") && fv.k != ovUnknown {
+							known = true
+						}
+					}
+					if known || len(x.Elts) == 0 {
+						out = opsVal{k: ovRecord, rec: rec, recT: lst}
+					}
+				}
+			}()
+		}
+		setField := func(name string, v opsVal) {
+			if rec == nil {
+				return
+			}
+			switch v.k {
+			case ovConst, ovLit, ovTable, ovRecord, ovNil:
+				rec[name] = v
+			default:
+				rec[name+"\x00set"] = opsVal{k: ovNonNil}
+			}
+		}
 		for i, el := range x.Elts {
 			if kv, ok := el.(*ast.KeyValueExpr); ok {
 				v := ev.eval(st, kv.Value)
+				if id, ok := kv.Key.(*ast.Ident); ok && lst != nil {
+					setField(id.Name, v)
+				}
 				if id, ok := kv.Key.(*ast.Ident); ok && v.k == ovConst && lst != nil {
 					st.ev = append(st.ev, opsEvent{k: oeField, name: id.Name, c: v.c, pos: kv.Pos()})
 					if res.k == ovDiag && ev.cfg.g.enumTypeOf(v.c) == ev.cfg.diag.levelT {
@@ -753,6 +818,9 @@ func (ev *opsEv) eval(st *opsSt, e ast.Expr) (out opsVal) {
 				}
 			} else {
 				v := ev.eval(st, el)
+				if lst != nil && i < lst.NumFields() {
+					setField(lst.Field(i).Name(), v)
+				}
 				if v.k == ovConst && lst != nil && i < lst.NumFields() {
 					// positional struct literal: same event as the keyed form
 					st.ev = append(st.ev, opsEvent{k: oeField, name: lst.Field(i).Name(), c: v.c, pos: el.Pos()})
@@ -780,7 +848,12 @@ func (ev *opsEv) eval(st *opsSt, e ast.Expr) (out opsVal) {
 	case *ast.KeyValueExpr:
 		return ev.eval(st, x.Value)
 	case *ast.FuncLit:
-		return opsVal{k: ovFunc, fn: x}
+		// the literal with the bindings of its free variables (it may be called from another function)
+		fenv := make(map[types.Object]opsVal, len(st.env))
+		for k, v := range st.env {
+			fenv[k] = v
+		}
+		return opsVal{k: ovFunc, fn: x, fenv: fenv, finfo: info}
 	case *ast.CallExpr:
 		return ev.call(st, x)
 	}
@@ -814,6 +887,30 @@ func (ev *opsEv) assert(st *opsSt, v opsVal, T types.Type, pos token.Pos) opsVal
 		return v
 	}
 	return v
+}
+
+// opsEffects: the number of events after position from, not counting the notes about literal fields.
+func opsEffects(ev []opsEvent, from int) int {
+	n := 0
+	for i := from; i < len(ev); i++ {
+		if ev[i].k != oeField {
+			n++
+		}
+	}
+	return n
+}
+
+// zeroOf: the zero value of t (for an enum the constant with value 0, when there is exactly one).
+func (ev *opsEv) zeroOf(t types.Type) opsVal {
+	if v := opsZeroOf(t); v.k != ovUnknown {
+		return v
+	}
+	if en := ev.cfg.g.opsEnumOf(t); en != nil {
+		if ks := en.ByVal["0"]; len(ks) == 1 {
+			return opsVal{k: ovConst, c: ks[0]}
+		}
+	}
+	return opsVal{}
 }
 
 // assertHolds: does v.(T) succeed under the assumed dimensions (1 yes, 0 no, -1 not decidable).
@@ -924,39 +1021,45 @@ func (ev *opsEv) call(st *opsSt, call *ast.CallExpr) opsVal {
 	if callee == nil {
 		// a function literal bound to a local (closure helper): walked in place with the current bindings
 		var lit *ast.FuncLit
+		var fenv map[types.Object]opsVal
+		linfo := info
 		switch f := ast.Unparen(call.Fun).(type) {
 		case *ast.Ident:
 			if obj, ok := info.Uses[f].(*types.Var); ok {
 				if fv := st.env[obj]; fv.k == ovFunc {
-					lit = fv.fn
+					lit, fenv = fv.fn, fv.fenv
+					if fv.finfo != nil {
+						linfo = fv.finfo
+					}
 				}
 			}
 		case *ast.FuncLit:
 			lit = f
 		}
-		{
-			{
-				if f := (opsVal{k: ovFunc, fn: lit}); lit != nil && ev.depth < ev.cfg.maxDepth+1 && !call.Ellipsis.IsValid() {
-					bind := make(map[types.Object]opsVal, len(st.env)+len(args))
-					for k, v := range st.env {
-						bind[k] = v
+		if lit != nil && ev.depth < ev.cfg.maxDepth+1 && !call.Ellipsis.IsValid() {
+			// free variables: the bindings at the literal, overridden by the current ones (a closure called in
+			// the function that defines it sees later assignments)
+			bind := make(map[types.Object]opsVal, len(st.env)+len(fenv)+len(args))
+			for k, v := range fenv {
+				bind[k] = v
+			}
+			for k, v := range st.env {
+				bind[k] = v
+			}
+			n := 0
+			for _, fl := range lit.Type.Params.List {
+				for _, nm := range fl.Names {
+					if n < len(args) {
+						bind[linfo.Defs[nm]] = args[n]
 					}
-					n := 0
-					for _, fl := range f.fn.Type.Params.List {
-						for _, nm := range fl.Names {
-							if n < len(args) {
-								bind[info.Defs[nm]] = args[n]
-							}
-							n++
-						}
-					}
-					sub, ok := g.walkBody(ev.cfg, f.fn.Body, f.fn.End(), info, bind, ev.depth+1, st.nPop)
-					if !ok || len(sub) == 0 {
-						return opsVal{}
-					}
-					return ev.enter(st, sub)
+					n++
 				}
 			}
+			sub, ok := g.walkBody(ev.cfg, lit.Body, lit.End(), linfo, bind, ev.depth+1, st.nPop)
+			if !ok || len(sub) == 0 {
+				return opsVal{}
+			}
+			return ev.enter(st, sub)
 		}
 		return opsVal{}
 	}
@@ -1111,10 +1214,29 @@ func (ev *opsEv) call(st *opsSt, call *ast.CallExpr) opsVal {
 			return true
 		case ovTuple:
 			return true
+		case ovFunc:
+			return true // a callback: what it does happens inside the callee
 		}
 		return false
 	}
 	trig := hasRecv && recvVal.k != ovNode && interesting(recvVal)
+	// a method of the dispatched node itself (declared on the node's own type) that yields a truth value or a
+	// dimension / operator constant: an accessor such as node.IsCompound()
+	if hasRecv && recvVal.k == ovNode && sig.Recv() != nil && opsTypeName(sig.Recv().Type()) != nil && opsTypeName(sig.Recv().Type()) == opsTypeName(recvVal.nodeT) {
+		for i := 0; i < sig.Results().Len(); i++ {
+			rt := sig.Results().At(i).Type()
+			if opsIsBool(rt) {
+				trig = true
+			}
+			if tn := opsTypeName(rt); tn != nil {
+				_, a := ev.cfg.nodeDims[tn]
+				_, b := ev.cfg.opndDims[tn]
+				if a || b || ev.cfg.trigger[tn] {
+					trig = true
+				}
+			}
+		}
+	}
 	for _, a := range args {
 		if interesting(a) {
 			trig = true
@@ -1295,6 +1417,7 @@ func (g *opsEng) walk(cfg *opsCfg, fd *ast.FuncDecl, bind map[types.Object]opsVa
 // walkBody: the walk is run once per choice prefix (see opsEv.enter); a run
 // with prefix P contributes the paths that made at least len(P) choices.
 func (g *opsEng) walkBody(cfg *opsCfg, body *ast.BlockStmt, end token.Pos, info *types.Info, bind map[types.Object]opsVal, depth, nPop int) (paths []opsPath, ok bool) {
+	body = g.unrollTables(cfg, body, info)
 	pending := [][]int{nil}
 	queued := map[string]bool{"": true}
 	runs := 0
@@ -1445,6 +1568,16 @@ func (g *opsEng) walkOnce(cfg *opsCfg, body *ast.BlockStmt, end token.Pos, info 
 		OnStmt: func(st *opsSt, s ast.Stmt) (*opsSt, bool) {
 			if st.tsSkip || st.drop {
 				return st, false
+			}
+			if ub := g.unrollBind[s]; ub != nil {
+				// one iteration of an unrolled table loop begins: the loop variables hold this element
+				if ub.keyObj != nil {
+					st.env[ub.keyObj] = opsVal{k: ovLit, lit: constant.MakeInt64(int64(ub.idx))}
+				}
+				if ub.valObj != nil {
+					st.env[ub.valObj] = ev.pureEval(ub.tbl, ub.tbl.vals[ub.idx])
+				}
+				return st, true
 			}
 			switch x := s.(type) {
 			case *ast.ExprStmt:
